@@ -198,7 +198,7 @@ func c11Scenario(h *H, root string, ti int) {
 	base := DumpBackend(be0)
 	dec := newA12Dec(a12Key(LoadBackend(base)))
 	// the backup under test: 6..13 MiB of new data (several 4 MiB packs), some files changed
-	c11Grow(h, tree, 2, 6+h.Intn(8))
+	c11Grow(h, tree, 2, 5+h.Intn(6))
 	for rel := range tree.hashes {
 		if h.Intn(40) == 0 {
 			tree.put(h, rel, h.Bytes(1+h.Intn(2000)))
@@ -264,7 +264,7 @@ func c11Scenario(h *H, root string, ti int) {
 	}
 	step := 1
 	if !h.Thorough() {
-		step = 2
+		step = 3
 	}
 	for j := h.Intn(step); j < n; j += step {
 		runs = append(runs, c11Run{"fail", j})
@@ -281,7 +281,7 @@ func c11Scenario(h *H, root string, ti int) {
 		lastKind, cnt := "none", 0
 		npacks, nidx := 0, 0
 		for _, e := range rec.Events {
-			if (e.Op == "save" || e.Op == "remove") && !e.Err {
+			if (e.Op == "save" || e.Op == "remove") && a12Happened(e, after) {
 				cnt++
 				lastKind = e.Op + "-" + e.Type
 				if e.Op == "save" && e.Type == "data" {
@@ -294,7 +294,7 @@ func c11Scenario(h *H, root string, ti int) {
 		}
 		h.Rec("last", lastKind, Itoa(cnt))
 		a12EmitState(h, dec, in, base, "r0")
-		a12EmitEvents(h, dec, in, "w", rec.Events)
+		a12EmitEvents(h, dec, in, "w", rec.Events, after)
 		a12EmitState(h, dec, in, after, "s1")
 		h.Rec("res", Itoa(res.Exit), B(r.mode == "complete"), HexS(firstLine(res.Stderr)))
 		// real check on the state the run left behind
